@@ -187,13 +187,63 @@ func graphRoundTrip(c *Check, cfg *configuration.Configuration, root interface{}
 	}
 }
 
+// gMap: a recursive map type - the graph's nodes are the maps themselves, so sharing and
+// cycles go through map values only (no pointer in between).
+type gMap map[string]gMap
+
+func buildMapGraph(succ [][]int) gMap {
+	nodes := make([]gMap, len(succ))
+	for i := range nodes {
+		nodes[i] = gMap{"z": nil} // never empty: sharing of empty containers is not tracked (go-duplicates skips them)
+	}
+	for i, ss := range succ {
+		for k, s := range ss {
+			nodes[i][string(rune('a'+k))] = nodes[s-1]
+		}
+	}
+	return nodes[0]
+}
+
+func mapGraphShape(v interface{}) string {
+	root, _ := v.(gMap)
+	seen := map[uintptr]int{}
+	var sb strings.Builder
+	var visit func(m gMap)
+	visit = func(m gMap) {
+		if m == nil {
+			sb.WriteString("nil")
+			return
+		}
+		p := reflect.ValueOf(m).Pointer()
+		if k, ok := seen[p]; ok {
+			fmt.Fprintf(&sb, "#%d", k)
+			return
+		}
+		seen[p] = len(seen) + 1
+		fmt.Fprintf(&sb, "(m%d {", seen[p])
+		var keys []string
+		for k := range m {
+			keys = append(keys, k)
+		}
+		sort.Strings(keys)
+		for _, k := range keys {
+			sb.WriteString(k + ":")
+			visit(m[k])
+			sb.WriteString(" ")
+		}
+		sb.WriteString("})")
+	}
+	visit(root)
+	return sb.String()
+}
+
 type pairFirst struct {
 	First  int
 	Second string
 }
 
 func checkC20(c *Check) {
-	c.Rule = "TLC (GraphMC.tla over Graph.tla) enumerates every graph of 3 nodes with ordered out-degree <= 2 (2197 graphs; node 1 is the root): the marshaler's walk modelled as a depth-first machine terminates (Termination) and marks every shared node once (Counts); each graph is realised with real Go pointers in four layouts (pointer fields, slices padded to 5 and 9 elements, maps, mixed), marshaled with recursion support to CBE and CTE (watchdog), the number of markers / references compared with the model, unmarshaled, and the pointer graph's canonical shape (numbering by first visit, pointer identity) compared. Plus wide sharing (up to 300 shared nodes), pointers to a struct and to its first field, and shared containers. non-trivial = graph has a shared node or cycle; distinct = (graph, layout, format)"
+	c.Rule = "TLC (GraphMC.tla over Graph.tla) enumerates every graph of 3 nodes with ordered out-degree <= 2 (2197 graphs; node 1 is the root): the marshaler's walk modelled as a depth-first machine terminates (Termination) and marks every shared node once (Counts); each graph is realised with real Go pointers in five layouts (pointer fields, slices padded to 5 and 9 elements, maps of pointers, mixed, and a recursive map type whose maps are the nodes themselves), marshaled with recursion support to CBE and CTE (watchdog), the number of markers / references compared with the model, unmarshaled, and the pointer graph's canonical shape (numbering by first visit, pointer identity) compared. Plus wide sharing (up to 300 shared nodes), pointers to a struct and to its first field, and shared containers. non-trivial = graph has a shared node or cycle; distinct = (graph, layout, format)"
 	c.Assumptions = []string{"harness shape extraction by pointer identity", "TLC", "Go arrays of pointers and sub-slice aliasing are not generated"}
 	cfg := configuration.New()
 	cfg.Iterator.RecursionSupport = true
@@ -225,6 +275,10 @@ func checkC20(c *Check) {
 			root := buildGraph(gc.Succ, l.name, l.pad)
 			desc := fmt.Sprintf("graph %v in layout %s/%d", gc.Succ, l.name, l.pad)
 			graphRoundTrip(c, cfg, root, shape, desc, gc.Markers, gc.Refs, fmt.Sprint(gc.Succ, l))
+		}
+		// the same graph with maps as the nodes themselves
+		if c.Tier != "quick" || gi%2 == 0 {
+			graphRoundTrip(c, cfg, buildMapGraph(gc.Succ), mapGraphShape, fmt.Sprintf("graph %v with recursive maps as nodes", gc.Succ), gc.Markers, gc.Refs, fmt.Sprint(gc.Succ, "puremap"))
 		}
 		if gi%500 == 0 {
 			c.Sample(gc)
